@@ -8,16 +8,16 @@ use crate::runner::{hash_of, Failure, Run, Stats};
 use proptest::prelude::*;
 use serde::{Deserialize, Serialize};
 use serde_json::{json, Value};
-use std::collections::HashMap;
+use std::collections::{HashMap, HashSet};
 
 pub const LEVEL: &str = "exploration";
 pub const EXHAUSTIVE: bool = false;
-pub const RULE: &str = "generated histories of 2..9 steps over {type a text lead.letters.trail with front-end selection bytes and commit an index (70% any index, 30% the preselected one), re-type the identical text of an earlier step, restart = new context over the same user directory}, smart quotes and English free; then 3 suffix probes (a learned word + one of the 737 suffix keys) in a freshly restarted context. Oracle (model of the store): after a commit of i != preselected with candidate c for text X, the next typing of the identical X - same context or after any number of restarts and other commits - has candidates[preselected] == c (expectation dropped when a later learning commit concerns the same word under another text); commit of the preselected index leaves the parsed store unchanged; after EVERY commit the file parses as a JSON object of strings and a new context loads it; suffix clause: with ideal(K) = the file's entry for K, else the unique join(ideal(K'), suffix[s']) over all splits K = K'.s' (ambiguous ones counted and skipped), typing W = B.s with W absent from the file, ideal(W) defined and its wrapped form offered must preselect exactly that candidate. Commits of the raw English candidate under a wrapper that transliterates are excluded by construction (known finding) and counted. Non-trivial: a non-preselected commit followed by a re-typing after a restart; distinct by history.";
+pub const RULE: &str = "generated histories of 2..9 steps over {type a text lead.letters.trail with front-end selection bytes and commit an index (70% any index, 30% the preselected one), re-type the identical text of an earlier step, compose a learned word followed by a suffix key, restart = new context over the same user directory}, smart quotes and English free; then suffix probes (3 learned words + generated suffix keys, plus EVERY base+suffix text composed on the way) typed both in the context that lived through the history and in a freshly restarted one; plus a directed part where both decompositions of W = B.s1.s2 rest on choices of the user (B.s1 learned first, then B). Oracle (model of the store): after a commit of i != preselected with candidate c for text X, the next typing of the identical X - same context or after any number of restarts and other commits - has candidates[preselected] == c (expectation dropped when a later learning commit concerns the same word under another text); commit of the preselected index leaves the parsed store unchanged; after EVERY commit the file parses as a JSON object of strings and a new context loads it; suffix clause: own = the store entries whose key the user committed a non-preselected candidate for; ideal(W) = own[W], else the unique join(own[B], suffix[s]) over all splits W = B.s into an own-learned word and ONE known suffix (several different values: ambiguous, counted and skipped); typing W that is not an own choice, with ideal(W) defined and offered, must preselect exactly that candidate. Commits of the raw English candidate under a wrapper that transliterates are excluded by construction (known finding) and counted. Non-trivial: a non-preselected commit followed by a re-typing after a restart, or a two-decomposition check whose expected candidate is not at index 0; distinct by history.";
 pub const ASSUMPTIONS: &[&str] = &[
     "selection bytes follow the front-end protocol (the previous list's preselected index)",
     "'the same text' = identical key sequence, wrapper included",
     "joining rules as stated; ambiguous suffix decompositions are not judged",
-    "entries present in the file count as 'a learned choice of its own'",
+    "'a learned choice of its own' = the user committed a non-preselected candidate for a text with that word part",
 ];
 
 const WORDS: &[&str] = &[
@@ -62,37 +62,32 @@ fn words() -> Vec<String> {
     w
 }
 
+/// The candidate the statement expects for the text `k`, from the user's OWN choices only (`own` = the entries of
+/// the store whose key the user committed a non-preselected candidate for): the own entry for `k`, else the
+/// *unique* value of join(own[K'], suffix[s']) over all splits k = K'.s' into an own-learned word and ONE known
+/// suffix (the statement says "that word followed by a known suffix").
 /// None = undefined, Some(None) = ambiguous, Some(Some(v)) = defined
-fn ideal(k: &str, store: &HashMap<String, String>, memo: &mut HashMap<String, Option<Option<String>>>) -> Option<Option<String>> {
-    if let Some(m) = memo.get(k) {
-        return m.clone();
+fn ideal(k: &str, own: &HashMap<String, String>) -> Option<Option<String>> {
+    if let Some(v) = own.get(k) {
+        return Some(Some(v.clone()));
     }
-    let r = if let Some(v) = store.get(k) {
-        Some(Some(v.clone()))
-    } else if k.len() < 2 {
+    let mut vals: Vec<String> = vec![];
+    for i in 1..k.len() {
+        if !k.is_char_boundary(i) {
+            continue;
+        }
+        let (p, s) = k.split_at(i);
+        if let (Some(b), Some(sbn)) = (own.get(p), data().suffix.get(s)) {
+            vals.push(join(b, sbn));
+        }
+    }
+    if vals.is_empty() {
         None
+    } else if !vals.iter().all(|v| *v == vals[0]) {
+        Some(None)
     } else {
-        let mut vals: Vec<Option<String>> = vec![];
-        for i in 1..k.len() {
-            let (p, s) = k.split_at(i);
-            if let Some(sbn) = data().suffix.get(s) {
-                match ideal(p, store, memo) {
-                    Some(Some(b)) => vals.push(Some(join(&b, sbn))),
-                    Some(None) => vals.push(None),
-                    None => {}
-                }
-            }
-        }
-        if vals.is_empty() {
-            None
-        } else if vals.iter().any(|v| v.is_none()) || !vals.iter().all(|v| *v == vals[0]) {
-            Some(None)
-        } else {
-            Some(vals[0].clone())
-        }
-    };
-    memo.insert(k.to_string(), r.clone());
-    r
+        Some(Some(vals[0].clone()))
+    }
 }
 
 fn fail(kind: &str, msg: String, c: &Case, log: &[String]) -> Failure {
@@ -116,6 +111,10 @@ pub fn run_case(run: &Run, c: &Case, st: &mut Stats) -> Result<(), Failure> {
     let mut typed: Vec<(String, String, String)> = vec![]; // (lead, word, trail)
     let mut restarted_since: HashMap<String, bool> = HashMap::new();
     let mut nontrivial = false;
+    // store keys for which the user made a choice of their own (a commit that was, or was taken as, a new choice)
+    let mut own: HashSet<String> = HashSet::new();
+    // base+suffix texts composed on the way (each time the engine derived a choice for them from the base)
+    let mut suffixed_seen: Vec<String> = vec![];
     for step in &c.steps {
         let (l, w, t) = match &step.kind {
             StepKind::Type { word, wrap } => {
@@ -136,7 +135,11 @@ pub fn run_case(run: &Run, c: &Case, st: &mut Stats) -> Result<(), Failure> {
                     continue;
                 }
                 st.label("suffixed-text-step");
-                (l.to_string(), format!("{base}{}", sk[*suffix as usize % sk.len()]), t.to_string())
+                let big = format!("{base}{}", sk[*suffix as usize % sk.len()]);
+                if !suffixed_seen.contains(&big) {
+                    suffixed_seen.push(big.clone());
+                }
+                (l.to_string(), big, t.to_string())
             }
         };
         let x = format!("{l}{w}{t}");
@@ -160,7 +163,12 @@ pub fn run_case(run: &Run, c: &Case, st: &mut Stats) -> Result<(), Failure> {
             if !run.absorb(st, "raw-english-choice-under-transliterating-wrapper") {
                 return Err(fail("raw-english-choice-under-transliterating-wrapper", format!("store maps {w:?} to itself and {x:?} has a wrapper that transliterates: {}", r.short()), c, &log));
             }
+            let before = sb.parsed_selections().unwrap_or_default();
             ctx.commit(psi.min(r.cands.len() - 1)).map_err(|p| pf(p, &log))?;
+            let k = crate::model::ref_split(&x, false).1;
+            if before.get(&k) != sb.parsed_selections().unwrap_or_default().get(&k) {
+                own.insert(k);
+            }
             log.push(format!("{x}#tainted"));
             learned_text.retain(|_, (ww, _)| *ww != w);
             learned_words.retain(|x| *x != w);
@@ -211,6 +219,13 @@ pub fn run_case(run: &Run, c: &Case, st: &mut Stats) -> Result<(), Failure> {
         log.push(format!("{x}#{idx}(psi {psi})"));
         let after_raw = sb.read_selections();
         let after = sb.parsed_selections();
+        {
+            let k = crate::model::ref_split(&x, false).1;
+            let get = |m: &Option<HashMap<String, String>>| m.as_ref().and_then(|m| m.get(&k).cloned());
+            if idx != psi || get(&before) != get(&after) {
+                own.insert(k);
+            }
+        }
         if idx == psi {
             let colon_in_word = crate::model::ref_split(&x, false).1.ends_with(':');
             if before != after && colon_in_word && run.absorb(st, "learned-choice-overridden-colon-in-word") {
@@ -247,46 +262,163 @@ pub fn run_case(run: &Run, c: &Case, st: &mut Stats) -> Result<(), Failure> {
             }
         }
     }
-    // suffix clause in a freshly restarted context
+    // suffix clause: in the context that lived through the history AND in a freshly restarted one.  The probes are
+    // learned words followed by generated suffix keys, plus every base+suffix text that was composed on the way
+    // (those are the ones the engine has derived a choice for before the base was possibly re-learned).
     let store = sb.parsed_selections().unwrap_or_default();
+    let own_store: HashMap<String, String> = store.iter().filter(|(k, _)| own.contains(*k)).map(|(k, v)| (k.clone(), v.clone())).collect();
     let ctx2 = Ctx::new(opts, &sb).map_err(|p| fail(&panic_kind(&p), format!("a new context cannot be created over the final store: {p}"), c, &log))?;
     let sk = &pools().suffix_keys;
+    let mut bigs: Vec<(String, bool)> = vec![];
     for (wi, si) in &c.probes {
         if learned_words.is_empty() {
             break;
         }
         let w = &learned_words[*wi as usize % learned_words.len()];
         let s = &sk[*si as usize % sk.len()];
-        let big = format!("{w}{s}");
-        let mut memo = HashMap::new();
-        match ideal(&big, &store, &mut memo) {
-            Some(Some(v)) if !store.contains_key(&big) => {
-                let r = ctx2.type_frontend(&big).map_err(|p| pf(p, &log))?.unwrap();
-                ctx2.finish().map_err(|p| pf(p, &log))?;
-                if r.cands.contains(&v) {
-                    st.count("suffix-checks", 1);
-                    let splits = (1..big.len()).filter(|i| data().suffix.contains_key(&big[*i..]) && ideal(&big[..*i], &store, &mut memo).is_some()).count();
-                    if splits >= 2 {
-                        st.label("suffix-check-with-two-agreeing-decompositions");
+        bigs.push((format!("{w}{s}"), false));
+    }
+    bigs.extend(suffixed_seen.iter().map(|b| (b.clone(), true)));
+    for (big, seen_before) in &bigs {
+        if own.contains(big) || big.ends_with(':') || big.ends_with('`') {
+            continue;
+        }
+        match ideal(big, &own_store) {
+            Some(Some(v)) => {
+                for (which, cx) in [("the context that lived through the history", &ctx), ("a freshly restarted context", &ctx2)] {
+                    let r = cx.type_frontend(big).map_err(|p| pf(p, &log))?.unwrap();
+                    cx.finish().map_err(|p| pf(p, &log))?;
+                    if r.cands.contains(&v) {
+                        st.count("suffix-checks", 1);
+                        if *seen_before {
+                            st.label("suffix-check-on-a-text-composed-earlier");
+                        }
+                        let splits = (1..big.len()).filter(|i| big.is_char_boundary(*i) && data().suffix.contains_key(&big[*i..]) && own_store.contains_key(&big[..*i])).count();
+                        if splits >= 2 {
+                            st.label("suffix-check-with-two-agreeing-decompositions");
+                        }
+                        if r.cands[r.sel.min(r.cands.len() - 1)] != v {
+                            let kind = if store.get(big).map(|e| *e != v).unwrap_or(false) { "stale-derived-choice-for-suffixed-form" } else { "suffixed-form-not-preselected" };
+                            return Err(fail(
+                                kind,
+                                format!("the user's own choices are {own_store:?} (file: {store:?}); {big:?} typed in {which}: the joined form {v:?} is offered but index {} is preselected in {:?}", r.sel, r.cands),
+                                c,
+                                &log,
+                            ));
+                        }
+                    } else {
+                        st.count("suffix-form-not-offered", 1);
                     }
-                    if r.cands[r.sel.min(r.cands.len() - 1)] != v {
-                        return Err(fail(
-                            "suffixed-form-not-preselected",
-                            format!("store {store:?}: typed {big:?}, joined form {v:?} is offered but index {} is preselected in {:?}", r.sel, r.cands),
-                            c,
-                            &log,
-                        ));
-                    }
-                } else {
-                    st.count("suffix-form-not-offered", 1);
                 }
             }
             Some(None) => st.count("suffix-ambiguous-skipped", 1),
-            _ => {}
+            None => {}
         }
     }
     if nontrivial {
         st.nontrivial(hash_of(c), || json!({"english": c.english, "smart": c.smart, "log": log, "final_store": store}));
+    }
+    Ok(())
+}
+
+/// Both decompositions of W = B.s1.s2 rest on choices of the user's own: B.s1 -> Y learned first, then B -> c with
+/// Y = join(c, suffix[s1]); (B.s1, s2) and (B, s1s2) then give the same joined form, and that form must be
+/// preselected for W - in the same context and after a restart.  (After the derived entries stopped being stored
+/// this is the only way two decompositions meet, i.e. the only place the 'two decompositions concatenated' defect
+/// could come back.)
+fn two_own_decompositions(run: &Run) {
+    let mut triples: Vec<(String, String, String)> = vec![];
+    let suf = &data().suffix;
+    let mut keys: Vec<&String> = suf.keys().collect();
+    keys.sort();
+    for k in keys {
+        for i in 1..k.len() {
+            let (a, b) = k.split_at(i);
+            if suf.contains_key(a) && suf.contains_key(b) {
+                triples.push((k.clone(), a.to_string(), b.to_string()));
+            }
+        }
+    }
+    let bases = ["kolkol", "park", "tank", "amar", "sesh", "onno", "kotha", "din", "rat", "boi", "rong", "sot", "hothat", "ebong", "bangla", "tumi"];
+    let step = run.tier.pick(29, 3);
+    let items: Vec<(String, (String, String, String))> = bases.iter().flat_map(|b| triples.iter().step_by(step).map(move |t| (b.to_string(), t.clone()))).collect();
+    run.exhaustive(
+        "two-own-decompositions",
+        &items,
+        |_| (),
+        |(b, (s12, s1, s2)), st, _| {
+            let case = json!({"two_own": {"base": b, "s1": s1, "s2": s2}});
+            two_own_case(b, s12, s1, s2, st).map_err(|(k, m)| Failure::new(&k, m, case.clone()))
+        },
+    );
+}
+
+fn two_own_case(b: &str, s12: &str, s1: &str, s2: &str, st: &mut Stats) -> Result<(), (String, String)> {
+    let pf = |p: crate::driver::PanicInfo| (panic_kind(&p), p.to_string());
+    let suf = &data().suffix;
+    let sb = Sandbox::new();
+    let opts = Opts::parse("s");
+    let ctx = Ctx::new(opts, &sb).map_err(pf)?;
+    let lb = ctx.type_frontend(b).map_err(pf)?.unwrap();
+    ctx.finish().map_err(pf)?;
+    let bs1 = format!("{b}{s1}");
+    let w = format!("{b}{s12}");
+    // a candidate c of B (not the preselected one) whose joined form is offered for B.s1 at a non-preselected index
+    for (ic, c) in lb.cands.iter().enumerate() {
+        if ic == lb.sel || !c.chars().all(crate::model::is_bengali_block) {
+            continue;
+        }
+        let y = join(c, &suf[s1]);
+        let v = join(&y, &suf[s2]);
+        if v != join(c, &suf[s12]) {
+            st.skip("two-own-decompositions-disagree");
+            continue;
+        }
+        let l1 = ctx.type_frontend(&bs1).map_err(pf)?.unwrap();
+        let Some(iy) = l1.cands.iter().position(|x| *x == y) else {
+            ctx.finish().map_err(pf)?;
+            continue;
+        };
+        if iy == l1.sel {
+            ctx.finish().map_err(pf)?;
+            continue;
+        }
+        ctx.commit(iy).map_err(pf)?;
+        let l2 = ctx.type_frontend(b).map_err(pf)?.unwrap();
+        let Some(ic2) = l2.cands.iter().position(|x| x == c) else {
+            ctx.finish().map_err(pf)?;
+            return Ok(());
+        };
+        if ic2 == l2.sel {
+            ctx.finish().map_err(pf)?;
+            return Ok(());
+        }
+        ctx.commit(ic2).map_err(pf)?;
+        let store = sb.parsed_selections().unwrap_or_default();
+        if store.get(&bs1) != Some(&y) || store.get(b) != Some(c) {
+            return Err(("own-choice-not-stored".into(), format!("committed {y:?} for {bs1:?} and {c:?} for {b:?}; the store is {store:?}")));
+        }
+        let ctx2 = Ctx::new(opts, &sb).map_err(pf)?;
+        for (which, cx) in [("the same context", &ctx), ("a restarted context", &ctx2)] {
+            let r = cx.type_frontend(&w).map_err(pf)?.unwrap();
+            cx.finish().map_err(pf)?;
+            let Some(iv) = r.cands.iter().position(|x| *x == v) else {
+                st.count("suffix-form-not-offered", 1);
+                continue;
+            };
+            st.count("suffix-checks", 1);
+            st.label("suffix-check-with-two-agreeing-decompositions");
+            if iv != 0 {
+                st.nontrivial(hash_of(&(b, s1, s2, which)), || json!({"own": store, "typed": w, "expected": v, "index": iv}));
+            }
+            if r.sel != iv {
+                return Err((
+                    "suffixed-form-not-preselected".into(),
+                    format!("own choices {store:?}: {w:?} = {bs1:?}+{s2:?} = {b:?}+{s12:?}, both give {v:?}, offered at index {iv}, but {which} preselects index {} of {:?}", r.sel, r.cands),
+                ));
+            }
+        }
+        return Ok(());
     }
     Ok(())
 }
@@ -304,6 +436,7 @@ pub fn strategy() -> impl Strategy<Value = Case> {
 }
 
 pub fn run(run: &Run) {
+    two_own_decompositions(run);
     run.sharded("learn-retype-restart", 16, run.tier.pick(250, 6000), 400, strategy, |_| (), |c: &Case, st, _| run_case(run, c, st));
     run.require_label("retyped-after-restart", 30);
     run.require_label("suffixed-text-step", 100);
@@ -313,6 +446,11 @@ pub fn run(run: &Run) {
 }
 
 pub fn replay(run: &Run, case: &Value) -> Result<(), Failure> {
+    if let Some(t) = case.get("two_own") {
+        let g = |k: &str| t[k].as_str().unwrap_or_default().to_string();
+        let (b, s1, s2) = (g("base"), g("s1"), g("s2"));
+        return two_own_case(&b, &format!("{s1}{s2}"), &s1, &s2, &mut Stats::new()).map_err(|(k, m)| Failure::new(&k, m, case.clone()));
+    }
     let c: Case = serde_json::from_value(case.clone()).map_err(|e| Failure::new("replay", format!("bad case: {e}"), case.clone()))?;
     run_case(run, &c, &mut Stats::new())
 }
